@@ -67,9 +67,18 @@ func (s *Syncer) mainToShadow(ctx context.Context, txn *lmdb.Txn, tsNano header.
 		}
 
 		targetDBIName := SyncDBIShadowPrefix + dbiName
+		exists, err := lmdbenv.DBIExists(txn, targetDBIName)
+		if err != nil {
+			return err
+		}
 		targetDBI, err := txn.OpenDBI(targetDBIName, lmdb.Create|targetFlags)
 		if err != nil {
 			return err
+		}
+		if !exists {
+			// Creating the shadow DBI changes the LMDB, even when the
+			// application DBI is empty and no entry follows.
+			s.noteTxnWrite()
 		}
 
 		it, err := NewNativeIterator(
